@@ -86,7 +86,7 @@ func enumerate(th bool, emit func(*unit)) map[string]any {
 	{
 		vals := []string{"-2", "-1", "0", "1", "2", "3", "9", "10", "+1", "01", "-0", "007", "-01",
 			"2147483647", "2147483648", "-2147483648", "-2147483649", "4294967296", "9223372036854775807", "-9223372036854775808",
-			"", "x", "1x", " 1", "1 ", "1.5", "9223372036854775808", "0x10", "--1"}
+			"", "x", "1x", " 1", "1 ", "1.5", "9223372036854775808", "18446744073709551617", "-9223372036854775809", "99999999999999999999999", "0x10", "--1"}
 		if th {
 			for i := -40; i <= 40; i++ {
 				s := fmt.Sprint(i)
